@@ -3,7 +3,6 @@ use std::io;
 use std::sync::Arc;
 use std::sync::atomic::Ordering;
 
-use codeq::OffsetSize;
 use codeq::error_context_ext::ErrorContextExt;
 use log::info;
 
@@ -223,6 +222,7 @@ impl<T: Types> RaftLog<T> {
         let mut closed = BTreeMap::new();
         let mut prev_end_offset = None;
         let mut last_log_id = None;
+        let mut removed_empty_newest = false;
 
         for chunk_id in chunk_ids.iter().copied() {
             // Only the last chunk(open chunk) needs to keep all log payload in
@@ -241,7 +241,19 @@ impl<T: Types> RaftLog<T> {
                 sm.apply(&record, chunk_id, seg)?;
             }
 
-            prev_end_offset = Some(chunk.last_segment().end().0);
+            // A crash while a chunk is being created can leave the newest
+            // chunk file without a complete head record. It holds nothing:
+            // remove it so that a fresh chunk is created at the same offset.
+            if chunk.records_count() == 0 && Some(&chunk_id) == chunk_ids.last()
+            {
+                drop(chunk);
+                std::fs::remove_file(config.chunk_path(chunk_id))?;
+                prev_end_offset = Some(chunk_id.offset());
+                removed_empty_newest = true;
+                break;
+            }
+
+            prev_end_offset = Some(chunk.global_end());
             last_log_id = sm.log_state.last.clone();
 
             closed.insert(
@@ -250,7 +262,13 @@ impl<T: Types> RaftLog<T> {
             );
         }
 
-        let open = Self::reopen_last_closed(&mut closed);
+        // The chunks loaded so far stay closed if the newest file was removed:
+        // their payloads have already been marked evictable.
+        let open = if removed_empty_newest {
+            None
+        } else {
+            Self::reopen_last_closed(&mut closed)
+        };
 
         let open = if let Some(open) = open {
             open
